@@ -298,8 +298,10 @@ def judge_attrs(chk: Check, row: Dict[str, Any], obs: Dict[str, Any], origin: st
     if dev.get("key"):
         if dev["mode"] == "err":
             same = obs["err"] == dev["err"]
+        elif dev["mode"] == "parse" and obs["err"]:
+            same = obs["err"] in dev["errok"]
         elif dev["mode"] == "parse":
-            same = not obs["err"] and not obs["spill"] and \
+            same = not obs["spill"] and \
                 [(a["n"], a["v"], a["bare"]) for a in obs["attrs"]] == [(a["n"], a["v"], a["bare"]) for a in dev["attrs"]]
         else:
             same = conforms_attrs(dev["items"], dev["errok"], obs)
@@ -467,7 +469,11 @@ def _instances(tier: str) -> List[Dict[str, Any]]:
         dict(name="attrs-values", module="MC_C13A", inv=_INV_A, over={"NameClass": "NameClassCached"},
              consts=dict(Profile="values", MaxKw=2 if q else 3, MaxEntries=9, NNames=1)),
         dict(name="attrs-forms", module="MC_C13A", inv=_INV_A, over={"NameClass": "NameClassCached"},
-             consts=dict(Profile="forms", MaxKw=2, MaxEntries=3 if q else 4, NNames=2 if q else 3)),
+             consts=dict(Profile="forms", MaxKw=2, MaxEntries=3, NNames=2 if q else 3)),
+    ] + ([] if q else [
+        dict(name="attrs-forms-deep", module="MC_C13A", inv=_INV_A, over={"NameClass": "NameClassCached"},
+             consts=dict(Profile="forms", MaxKw=2, MaxEntries=4, NNames=2)),
+    ]) + [
         dict(name="attrs-names", module="MC_C13A", inv=_INV_A, over={"NameClass": "NameClassCached"},
              consts=dict(Profile="names", MaxKw=1, MaxEntries=9, NNames=1)),
         dict(name="attrs-repeat", module="MC_C13A", inv=_INV_A, over={"NameClass": "NameClassCached"},
